@@ -10,6 +10,11 @@ exactly as in the `avalanches` request of `Driver/C13b.lean` (whose parser is re
 * `vertex <wire response> | <pad response> | <neighbour factors> | w<idx>:<samples> … |
   p<col>.<row>:<samples> …` → `ok none` | `ok <x> <y> <z>` (bit patterns, `nan` for any NaN) |
   `panic <site>`;
+* `vertexx <pad response> | w<idx>:<deconvolved input> … | p<col>.<row>:<samples> …` → the same
+  answer for the chain downstream of the wire deconvolution (the w-tokens carry what
+  `wire_range_deconvolution` returned, as in `avalanchesx` of `Driver/C13b.lean`): bit for bit;
+* an `ok` answer of `vertex`/`vertexx` ends in ` dust=<k>` when `k > 0` avalanches of the model's
+  list have a wire amplitude below `1e-9` of the largest;
 * `vertexstages <same arguments>` → `stages av=<n> sp=<n> cl=<n>[<sizes>] tr=<n> cand=<n> vt=<n>`
   — the sizes after each stage (avalanches, space points, clusters with their sizes, fitted
   tracks, tracks passing the two filters of `find_vertices`, tracks of the primary vertex), cut
@@ -41,17 +46,14 @@ def consts : Consts Float where
   maxTrackBeamlineDca := C14b.maxTrackBeamlineDca
   maxBeamlineClusteringDistance := C14b.maxBeamlineClusteringDistance
 
-/-- Lookup in a finished ranking (a partial application `lookupRank m` holds the map). -/
-@[noinline] def lookupRank (m : Std.HashMap Nat Nat) (c : Nat) : Nat := m.getD c 0
+/-- Ranking of the Hough bin codes by first appearance (`Driver/C15b.lean`), computed once per
+point cloud (`Renaming` is a structure so that this is a saturated call). -/
+@[noinline] def renBox (prm : Hough.Params Float) (pts : Array (Hough.Point Float)) : Renaming :=
+  let m := C15b.rankMap (C15b.allCodes prm pts)
+  ⟨fun c => m.getD c 0⟩
 
-/-- Ranking of the Hough bin codes by first appearance (`Driver/C15b.lean`: `rankFn (allCodes prm
-pts)`), computed once per point cloud: the model applies `Pipe.ren` to the points once and hands
-the resulting closure to the clustering. -/
-@[noinline] def renOf (prm : Hough.Params Float) (pts : Array (Hough.Point Float)) : Nat → Nat :=
-  lookupRank (C15b.rankMap (C15b.allCodes prm pts))
-
-theorem renOf_eq (prm : Hough.Params Float) (pts : Array (Hough.Point Float)) :
-    renOf prm pts = C15b.rankFn (C15b.allCodes prm pts) := rfl
+theorem renBox_fn (prm : Hough.Params Float) (pts : Array (Hough.Point Float)) :
+    (renBox prm pts).fn = C15b.rankFn (C15b.allCodes prm pts) := rfl
 
 def pipe (T : Avalanches.Tables Float) : Pipe Float where
   deconv := Deconv.floatOps
@@ -63,7 +65,7 @@ def pipe (T : Avalanches.Tables Float) : Pipe Float where
   hough := C15b.floatOps
   fit := C14c.fops
   ofNat := Float.ofNat
-  ren := fun pts => renOf ⟨rhoBins, thetaBins, consts.maxClusterDistance⟩ pts
+  ren := renBox ⟨rhoBins, thetaBins, consts.maxClusterDistance⟩
   c := consts
 
 def parseEvent (args : List String) : Option (Avalanches.Tables Float × Matching.Event Float) :=
@@ -87,21 +89,56 @@ def pointsDigest (pts : Array (Hough.Point Float)) : String :=
     0xcbf29ce484222325
   s!"pts={pts.size}:{C17.hex16 h.toNat}"
 
-/-- `vertexOfSignals (pipe T) ev` evaluated as `pointsOfSignals … >>= vertexFromPoints …`
-(`vertexOfSignals_eq`), with the digest of the points appended to an `ok` answer. -/
+/-- Number of avalanches whose wire amplitude is at most `1e-9` of the event's largest ("dust":
+rounding residue of the fit subtraction that passes `> 0.0`; which of it exists depends on the
+last bit of the Cholesky solve — see harness/src/c13b.rs, c09b.rs). -/
+def dustCount (avs : List (Matching.Avalanche Float)) : Nat :=
+  let scale := avs.foldl (fun m a => if m < a.wireAmp then a.wireAmp else m) 0.0
+  (avs.filter fun a => a.wireAmp ≤ 1.0e-9 * scale).length
+
+/-- Stages 2–5 on a given avalanche list, with the digest of the points (and the dust count of
+the list, when not zero) appended to an `ok` answer. -/
+def downstreamAnswer (P : Pipe Float) (avs : List (Matching.Avalanche Float)) : String :=
+  let dust := if dustCount avs = 0 then "" else s!" dust={dustCount avs}"
+  match stagePoints P avs with
+  | .panic site => s!"panic {site}"
+  | .err _ => "err -"
+  | .ok pts =>
+    match vertexFromPoints P pts with
+    | .ok none => s!"ok none {pointsDigest pts}{dust}"
+    | .ok (some p) => s!"ok {showFloat p.1} {showFloat p.2.1} {showFloat p.2.2} {pointsDigest pts}{dust}"
+    | .err _ => "err -"
+    | .panic site => s!"panic {site}"
+
+/-- `vertexOfSignals (pipe T) ev`, evaluated as `stageAvalanches … >>= stagePoints … >>=
+vertexFromPoints …` (`vertexOfSignals_eq`, `vertexFromAvalanches_eq`). -/
 def vertexAnswer (args : List String) : String :=
   match parseEvent args with
   | some (T, ev) =>
-    match pointsOfSignals (pipe T) ev with
+    match stageAvalanches (pipe T) ev with
     | .panic site => s!"panic {site}"
     | .err _ => "err -"
-    | .ok pts =>
-      match vertexFromPoints (pipe T) pts with
-      | .ok none => s!"ok none {pointsDigest pts}"
-      | .ok (some p) => s!"ok {showFloat p.1} {showFloat p.2.1} {showFloat p.2.2} {pointsDigest pts}"
-      | .err _ => "err -"
-      | .panic site => s!"panic {site}"
+    | .ok avs => downstreamAnswer (pipe T) avs
   | none => "bad-request"
+
+/-- Downstream of the wire deconvolution (as `avalanchesx` of `Driver/C13b.lean`): the listed wires
+carry the *inputs* `wire_range_deconvolution` returned for them, pads are deconvolved by the model,
+then `vertexFromAvalanches`. Everything in this request is bit for bit. -/
+def exactAnswer (args : List String) : String :=
+  match groups args with
+  | [pr, ws, ps] =>
+    match groupFloats? pr, ws.mapM wireTok?, ps.mapM padTok? with
+    | some padResp, some wires, some pads =>
+      let Q : Matching.Params Float :=
+        { deconvBlock := fun signals => signals
+          padDeconv := fun signal => Avalanches.okD (Deconv.padDeconv Deconv.floatOps padResp signal) [] }
+      let ev := mkEvent wires pads
+      let avs := Avalanches.avalanchesShared Deconv.floatOps C13.floatGeo C13.floatSorter Q ev
+        (Matching.assignments Q ev)
+      let T : Avalanches.Tables Float := { wireResp := [], padResp, factors := [], sqrt := Float.sqrt }
+      downstreamAnswer (pipe T) avs
+    | _, _, _ => "bad-request"
+  | _ => "bad-request"
 
 def showOpt (x : Option Nat) : String :=
   match x with
@@ -130,22 +167,6 @@ def pointsAnswer (args : List String) : String :=
     | .panic site => s!"panic {site}"
   | none => "bad-request"
 
-/-- Debugging: run the pipeline up to stage `k` (3: clusters, 4: tracks) and print a size. -/
-def uptoAnswer (k : Nat) (args : List String) : String :=
-  match parseEvent args with
-  | some (T, ev) =>
-    match pointsOfSignals (pipe T) ev with
-    | .ok pts =>
-      match stageClusters (pipe T) pts with
-      | .ok r =>
-        if k ≤ 3 then s!"ok clusters {r.clusters.length}" else
-        match stageTracks (pipe T) pts r.clusters with
-        | .ok ts => s!"ok tracks {ts.size}"
-        | _ => "other"
-      | _ => "other"
-    | _ => "other"
-  | none => "bad-request"
-
 def constsAnswer : String :=
   "ok " ++ " ".intercalate ([consts.adcRate, consts.wirePitchPhi, consts.maxClusterDistance,
     consts.epsilon, consts.delta, consts.minTrackLength, consts.maxTrackBeamlineDca,
@@ -154,10 +175,9 @@ def constsAnswer : String :=
 def handle (cmd : String) (args : List String) : Option String :=
   match cmd, args with
   | "vertex", rest => some (vertexAnswer rest)
+  | "vertexx", rest => some (exactAnswer rest)
   | "vertexstages", rest => some (stagesAnswer rest)
   | "vertexpoints", rest => some (pointsAnswer rest)
-  | "vertexupto3", rest => some (uptoAnswer 3 rest)
-  | "vertexupto4", rest => some (uptoAnswer 4 rest)
   | "vertexconsts", [] => some constsAnswer
   | _, _ => none
 
